@@ -1,6 +1,8 @@
 SPECIFICATION Spec
 CONSTANTS MaxLen = 2 MaxN = 4 Infinite = FALSE MaxOut = 100
+  Vals = "nat" Stops = FALSE MaxRuns = 1
   Alphabet <- AlphaNul
+  Must <- NoMust
   Pairs <- Both
 INVARIANT OpEqDen
 INVARIANT OutIsPrefix
